@@ -537,21 +537,38 @@ func (sw *SlidingWindow) checkAndTriggerWindows(watermarkTime time.Time) {
 			debugLogSliding("checkAndTriggerWindows: triggering window [%v, %v) with %d data items",
 				windowStart.UnixMilli(), windowEnd.UnixMilli(), dataInWindow)
 
+			// If allowedLateness > 0, keep window open for late data. Register it
+			// before the lock is released for delivery: a late event arriving while
+			// the first firing is on its way out must find the window (it used to be
+			// dropped), and its update is held back until the first firing is out.
+			var info *triggeredWindowInfo
+			if allowedLateness > 0 {
+				windowKey := sw.getWindowKey(*slotToTrigger.End)
+				closeTime := slotToTrigger.End.Add(allowedLateness)
+				info = &triggeredWindowInfo{
+					slot:         slotToTrigger,
+					closeTime:    closeTime,
+					snapshotData: snapshotData, // Save snapshot for late updates
+					firing:       true,
+				}
+				sw.triggeredWindows[windowKey] = info
+				debugLogSliding("checkAndTriggerWindows: window [%v, %v) kept open for late data until %v",
+					windowStart.UnixMilli(), windowEnd.UnixMilli(), closeTime.UnixMilli())
+			}
+
 			sw.triggerSpecificWindowLocked(slotToTrigger)
 
 			debugLogSliding("checkAndTriggerWindows: window triggered successfully")
 
-			// If allowedLateness > 0, keep window open for late data
-			if allowedLateness > 0 {
-				windowKey := sw.getWindowKey(*slotToTrigger.End)
-				closeTime := slotToTrigger.End.Add(allowedLateness)
-				sw.triggeredWindows[windowKey] = &triggeredWindowInfo{
-					slot:         slotToTrigger,
-					closeTime:    closeTime,
-					snapshotData: snapshotData, // Save snapshot for late updates
+			if info != nil {
+				// First firing delivered: emit the update for late events held back meanwhile.
+				info.firing = false
+				if info.pendingLate {
+					info.pendingLate = false
+					if _, open := sw.triggeredWindows[sw.getWindowKey(*slotToTrigger.End)]; open {
+						sw.triggerLateUpdateLocked(slotToTrigger)
+					}
 				}
-				debugLogSliding("checkAndTriggerWindows: window [%v, %v) kept open for late data until %v",
-					windowStart.UnixMilli(), windowEnd.UnixMilli(), closeTime.UnixMilli())
 			}
 		} else {
 			debugLogSliding("checkAndTriggerWindows: window [%v, %v) has no data, skipping trigger",
@@ -882,10 +899,18 @@ func (sw *SlidingWindow) handleLateData(eventTime time.Time, allowedLateness tim
 	}
 	sort.Slice(slots, func(i, j int) bool { return slots[i].End.Before(*slots[j].End) })
 	for _, slot := range slots {
-		if _, open := sw.triggeredWindows[sw.getWindowKey(*slot.End)]; open {
-			// Trigger window again with updated data (late update)
-			sw.triggerLateUpdateLocked(slot)
+		info, open := sw.triggeredWindows[sw.getWindowKey(*slot.End)]
+		if !open {
+			continue
 		}
+		if info.firing {
+			// its first firing is still on the way out: the trigger goroutine
+			// emits the update right after it, so the update cannot overtake it
+			info.pendingLate = true
+			continue
+		}
+		// Trigger window again with updated data (late update)
+		sw.triggerLateUpdateLocked(slot)
 	}
 }
 
